@@ -399,9 +399,10 @@ Proof.
   intros G n. unfold g_rollback. destruct (last_approved (mlog G) n); [right; eauto | left; auto].
 Qed.
 
-Lemma step_chain : forall G o, allow G = false -> exists l, chainrel G (fst (g_step G o)) l.
+Lemma step_chain : forall G o, is_config o = false -> allow G = false ->
+  exists l, chainrel G (fst (g_step G o)) l.
 Proof.
-  intros G o Hal. destruct o; cbn [g_step].
+  intros G o Hcf Hal. destruct o; try discriminate; cbn [g_step].
   - exists []. now apply add_chain.
   - now apply mutate_chain.
   - destruct (rollback_cases G n) as [(_ & E)|(m & _ & E)]; rewrite E.
@@ -414,15 +415,89 @@ Proof.
   - exists []. apply chainrel_refl.
 Qed.
 
-Lemma run_chain : forall ops G, allow G = false -> exists l, chainrel G (g_run G ops) l.
+Lemma g_run_cons_early : forall G o ops, g_run G (o :: ops) = g_run (fst (g_step G o)) ops.
+Proof. reflexivity. Qed.
+
+(* ---- histories with configuration assignments ----
+   allow_mutations / on_mutation / mutation_rate may be assigned on the live
+   genome between calls.  As long as no assignment switches allow_mutations on,
+   the replay invariant holds with "the callback" read as "a callback that was
+   installed at some moment of the history" (P below); which callback decides
+   a given call is pinned down by [change_attributed] further down: the one
+   installed when the call is made. *)
+Definition enables (o : gop) : bool :=
+  match o with OSetAllow true => true | _ => false end.
+Definition never_enabled (ops : list gop) : Prop := forall o, In o ops -> enables o = false.
+(* the callbacks in force at some moment of a history that starts in G *)
+Definition installed (G : genome) (ops : list gop) (c : option oracle) : Prop :=
+  c = cb G \/ In (OSetCb c) ops.
+
+Definition entry_ok_in (P : option oracle -> Prop) (m : mrec) : Prop :=
+  m_approved m = true -> exists c, P c /\ cb_approves c m = true.
+
+Record gchain (P : option oracle -> Prop) (G G' : genome) (l : list mrec) : Prop := mkGChain {
+  gc_allow : allow G' = false;
+  gc_cb : P (cb G');
+  gc_log : mlog G' = mlog G ++ l;
+  gc_ok : Forall (entry_ok_in P) l;
+  gc_val : forall n v, stored G n = Some v -> stored G' n = Some (replay l n v) /\ origs n v l }.
+
+Lemma chainrel_gchain : forall (P : option oracle -> Prop) G G' l,
+  chainrel G G' l -> allow G = false -> P (cb G) -> gchain P G G' l.
 Proof.
-  induction ops as [|o ops IH]; intros G Hal.
-  - exists []. apply chainrel_refl.
-  - destruct (step_chain G o Hal) as (l1 & C1).
-    assert (Hal1 : allow (fst (g_step G o)) = false).
-    { destruct (cr_meta _ _ _ C1) as (E & _). congruence. }
-    destruct (IH _ Hal1) as (l2 & C2).
-    exists (l1 ++ l2). eapply chainrel_trans; eauto.
+  intros P G G' l [(Ma & Mc & _) L O V] Hal Hp. constructor; auto; try congruence.
+  eapply Forall_impl; [|exact O]. intros m Hm A. exists (cb G). split; [assumption | now apply Hm].
+Qed.
+
+Lemma gchain_refl : forall (P : option oracle -> Prop) G, allow G = false -> P (cb G) -> gchain P G G [].
+Proof. intros P G Hal Hp. apply chainrel_gchain; auto. apply chainrel_refl. Qed.
+
+Lemma gchain_trans : forall P A B C l1 l2,
+  gchain P A B l1 -> gchain P B C l2 -> gchain P A C (l1 ++ l2).
+Proof.
+  intros P A B C l1 l2 [A1 P1 L1 O1 V1] [A2 P2 L2 O2 V2]. constructor; auto.
+  - rewrite L2, L1. now rewrite app_assoc.
+  - apply Forall_app. auto.
+  - intros n v H. destruct (V1 n v H) as (S1 & R1).
+    destruct (V2 n _ S1) as (S2 & R2).
+    rewrite replay_app. split; [assumption|]. apply origs_app. auto.
+Qed.
+
+(* an assignment of a configuration attribute touches nothing else *)
+Lemma config_step_facts : forall G o, is_config o = true ->
+  tbl (fst (g_step G o)) = tbl G /\ mlog (fst (g_step G o)) = mlog G /\
+  generation (fst (g_step G o)) = generation G /\ parent (fst (g_step G o)) = parent G /\
+  snd (g_step G o) = true.
+Proof. intros G o H. destruct o; try discriminate; repeat split. Qed.
+
+Lemma config_stored : forall G o n, is_config o = true -> stored (fst (g_step G o)) n = stored G n.
+Proof. intros G o n H. unfold stored. now destruct (config_step_facts G o H) as (-> & _). Qed.
+
+Lemma run_gchain : forall (P : option oracle -> Prop) ops G,
+  allow G = false -> P (cb G) -> never_enabled ops -> (forall c, In (OSetCb c) ops -> P c) ->
+  exists l, gchain P G (g_run G ops) l.
+Proof.
+  intros P. induction ops as [|o ops IH]; intros G Hal Hp Hne Hcb.
+  - exists []. now apply gchain_refl.
+  - assert (Hne' : never_enabled ops) by (intros x Hx; apply Hne; now right).
+    assert (Hcb' : forall c, In (OSetCb c) ops -> P c) by (intros c Hc; apply Hcb; now right).
+    assert (C1 : exists l1, gchain P G (fst (g_step G o)) l1).
+    { destruct (is_config o) eqn:Ec.
+      - exists []. pose proof (Hne o (or_introl eq_refl)) as En.
+        assert (Hc : P (cb (fst (g_step G o))) /\ allow (fst (g_step G o)) = false).
+        { destruct o; try discriminate; cbn [g_step fst set_allow set_cb set_rate allow cb].
+          - destruct b; [discriminate | auto].
+          - split; [apply Hcb; now left | assumption].
+          - auto. }
+        destruct Hc as (Hc1 & Hc2).
+        destruct (config_step_facts G o Ec) as (_ & Lg & _).
+        constructor; auto.
+        + now rewrite app_nil_r.
+        + intros n v S. rewrite (config_stored G o n Ec). split; [exact S | exact I].
+      - destruct (step_chain G o Ec Hal) as (l1 & C1). exists l1. now apply chainrel_gchain. }
+    destruct C1 as (l1 & C1).
+    destruct (IH _ (gc_allow _ _ _ _ C1) (gc_cb _ _ _ _ C1) Hne' Hcb') as (l2 & C2).
+    exists (l1 ++ l2). rewrite g_run_cons_early. eapply gchain_trans; eauto.
 Qed.
 
 Lemma muts_chain : forall muts C, allow C = false -> exists l, chainrel C (apply_muts C muts) l.
@@ -445,6 +520,15 @@ Proof.
   intros c l D H. induction H as [|m l Hm _ IH]; constructor; [|assumption].
   destruct (m_approved m) eqn:A; [|reflexivity].
   specialize (Hm A). rewrite D in Hm. discriminate.
+Qed.
+
+Lemma denied_log_in : forall (P : option oracle -> Prop) l,
+  (forall c, P c -> cb_denies c) -> Forall (entry_ok_in P) l ->
+  Forall (fun m => m_approved m = false) l.
+Proof.
+  intros P l D H. induction H as [|m l Hm _ IH]; constructor; [|assumption].
+  destruct (m_approved m) eqn:A; [|reflexivity].
+  destruct (Hm A) as (c & Hc & Ha). rewrite (D c Hc) in Ha. discriminate.
 Qed.
 
 Lemma replay_unapproved : forall l n v,
@@ -518,9 +602,10 @@ Proof.
     + unfold wf. cbn [set_tbl tbl]. apply NoDup_put.
 Qed.
 
-Lemma step_frame : forall G o, frame G (fst (g_step G o)).
+(* every method leaves the configuration attributes alone ... *)
+Lemma step_frame : forall G o, is_config o = false -> frame G (fst (g_step G o)).
 Proof.
-  intros G o. destruct o; cbn [g_step fst];
+  intros G o Hcf. destruct o; try discriminate; cbn [g_step fst];
     auto using add_frame, mutate_frame, set_level_frame, frame_refl.
   destruct (rollback_cases G n) as [(_ & E)|(m & _ & E)]; rewrite E;
     auto using mutate_frame, frame_refl.
@@ -529,10 +614,65 @@ Qed.
 Lemma g_run_cons : forall G o ops, g_run G (o :: ops) = g_run (fst (g_step G o)) ops.
 Proof. reflexivity. Qed.
 
-Lemma run_frame : forall ops G, frame G (g_run G ops).
+(* ... and what holds of every call, assignments of the configuration
+   attributes included: lineage data, log (append-only), gene set, dict shape *)
+Record wframe (G G' : genome) : Prop := mkWFrame {
+  wfr_lin : generation G' = generation G /\ parent G' = parent G;
+  wfr_log : exists l, mlog G' = mlog G ++ l;
+  wfr_keep : forall n, stored G n <> None -> stored G' n <> None;
+  wfr_wf : wf G -> wf G' }.
+
+Lemma frame_wframe : forall G G', frame G G' -> wframe G G'.
+Proof. intros G G' [(_ & _ & g & p & _) L K W]. constructor; auto. Qed.
+
+Lemma wframe_refl : forall G, wframe G G.
+Proof. intros. apply frame_wframe, frame_refl. Qed.
+
+Lemma wframe_trans : forall A B C, wframe A B -> wframe B C -> wframe A C.
 Proof.
-  induction ops as [|o ops IH]; intros G; [apply frame_refl|].
-  eapply frame_trans; [apply (step_frame G o) | apply IH].
+  intros A B C [(g1 & p1) (l1 & L1) K1 W1] [(g2 & p2) (l2 & L2) K2 W2]. constructor; auto.
+  - split; congruence.
+  - exists (l1 ++ l2). now rewrite L2, L1, app_assoc.
+Qed.
+
+Lemma step_wframe : forall G o, wframe G (fst (g_step G o)).
+Proof.
+  intros G o. destruct (is_config o) eqn:Ec.
+  - destruct (config_step_facts G o Ec) as (T & L & Ge & Pa & _). constructor; auto.
+    + exists []. now rewrite app_nil_r.
+    + intros n. now rewrite (config_stored G o n Ec).
+    + unfold wf. now rewrite T.
+  - apply frame_wframe. now apply step_frame.
+Qed.
+
+Lemma run_wframe : forall ops G, wframe G (g_run G ops).
+Proof.
+  induction ops as [|o ops IH]; intros G; [apply wframe_refl|].
+  eapply wframe_trans; [apply (step_wframe G o) | apply IH].
+Qed.
+
+(* the configuration at any moment is the constructor's, overwritten by the
+   assignments made so far: no method changes it *)
+Definition last_allow (ops : list gop) (d : bool) : bool :=
+  fold_left (fun a o => match o with OSetAllow b => b | _ => a end) ops d.
+Definition last_cb (ops : list gop) (d : option oracle) : option oracle :=
+  fold_left (fun a o => match o with OSetCb c => c | _ => a end) ops d.
+Definition last_rate (ops : list gop) (d : Z) : Z :=
+  fold_left (fun a o => match o with OSetRate k => k | _ => a end) ops d.
+
+Lemma run_config : forall ops G,
+  allow (g_run G ops) = last_allow ops (allow G) /\
+  cb (g_run G ops) = last_cb ops (cb G) /\
+  mrate (g_run G ops) = last_rate ops (mrate G).
+Proof.
+  induction ops as [|o ops IH]; intros G; [repeat split|].
+  rewrite g_run_cons. unfold last_allow, last_cb, last_rate. cbn [fold_left].
+  fold (last_allow ops). fold (last_cb ops). fold (last_rate ops).
+  destruct (IH (fst (g_step G o))) as (A & C & R). rewrite A, C, R.
+  destruct (is_config o) eqn:Ec.
+  - destruct o; try discriminate; repeat split.
+  - destruct (fr_meta _ _ (step_frame G o Ec)) as (Ma & Mc & _ & _ & Mr).
+    rewrite Ma, Mc, Mr. destruct o; try discriminate; repeat split.
 Qed.
 
 Lemma muts_frame : forall muts C, frame C (apply_muts C muts).
@@ -594,16 +734,25 @@ Qed.
 
 Lemma deny_run_vals : forall ops G,
   allow G = false -> cb_denies (cb G) ->
+  never_enabled ops -> (forall c, In (OSetCb c) ops -> cb_denies c) ->
   exists fresh, vals (g_run G ops) = vals G ++ fresh /\
     Forall (fun nv => stored G (fst nv) = None /\
                       exists g, In (OAdd g) ops /\ nv = (g_name g, g_value g)) fresh.
 Proof.
-  induction ops as [|o ops IH]; intros G Hal D.
+  induction ops as [|o ops IH]; intros G Hal D Hne Hcb.
   - exists []. split; [now rewrite app_nil_r | constructor].
-  - destruct (fr_meta _ _ (step_frame G o)) as (Ea & Ec & _).
-    assert (Hal1 : allow (fst (g_step G o)) = false) by congruence.
-    assert (D1 : cb_denies (cb (fst (g_step G o)))) by (rewrite Ec; exact D).
-    destruct (IH _ Hal1 D1) as (f2 & V2 & F2). rewrite g_run_cons.
+  - assert (Hne' : never_enabled ops) by (intros x Hx; apply Hne; now right).
+    assert (Hcb' : forall c, In (OSetCb c) ops -> cb_denies c) by (intros c Hc; apply Hcb; now right).
+    assert (H1 : allow (fst (g_step G o)) = false /\ cb_denies (cb (fst (g_step G o)))).
+    { destruct (is_config o) eqn:Ec.
+      - pose proof (Hne o (or_introl eq_refl)) as En.
+        destruct o; try discriminate; cbn [g_step fst set_allow set_cb set_rate allow cb].
+        + destruct b; [discriminate | auto].
+        + split; [assumption | apply Hcb; now left].
+        + auto.
+      - destruct (fr_meta _ _ (step_frame G o Ec)) as (Ea & Ec' & _). rewrite Ea, Ec'. auto. }
+    destruct H1 as (Hal1 & D1).
+    destruct (IH _ Hal1 D1 Hne' Hcb') as (f2 & V2 & F2). rewrite g_run_cons.
     destruct (deny_step_vals G o Hal D) as [V1|(g & -> & S & V1)].
     + exists f2. split; [now rewrite V2, V1|].
       eapply Forall_impl; [|exact F2]. intros nv (Hs & g & Hin & ->). split.
@@ -852,7 +1001,7 @@ Proof.
   assert (Hroll : g_rollback G2 n = g_mutate G2 n v RRollback).
   { unfold g_rollback. rewrite Hlast. reflexivity. }
   assert (Hk : stored G2 n <> None).
-  { apply (fr_keep _ _ (run_frame ops G1)). congruence. }
+  { apply (wfr_keep _ _ (run_wframe ops G1)). congruence. }
   destruct (stored G2 n) as [cur|] eqn:Sc; [|congruence].
   exists cur. split; [reflexivity|]. rewrite Hroll.
   destruct (mutate_cases G2 n v RRollback) as [(S & E)|[(old & S & A' & E)|(e2 & L2 & A' & E)]].
@@ -1478,7 +1627,7 @@ Proof.
   - rewrite (step_world W i o G E).
     assert (WG : wf G) by (eapply Forall_forall; [exact H | eapply nth_error_In; eauto]).
     apply Forall_app. split.
-    + apply Forall_set_nth; [assumption|]. now apply (fr_wf _ _ (step_frame G o)).
+    + apply Forall_set_nth; [assumption|]. now apply (wfr_wf _ _ (step_wframe G o)).
     + destruct o; cbn [born]; try constructor; [now apply replicate_full_wf | constructor].
   - now rewrite step_bad.
 Qed.
@@ -1493,23 +1642,31 @@ Qed.
 (* 11. the statements used by Property.v                                    *)
 
 Lemma unauthorised_ops_proof : forall W ops i G,
-  nth_error W i = Some G -> allow G = false ->
+  nth_error W i = Some G -> allow G = false -> never_enabled (ops_for i ops) ->
   exists G' newlog,
-    nth_error (run W ops) i = Some G' /\ mlog G' = mlog G ++ newlog /\
-    Forall (entry_ok (cb G)) newlog /\
+    nth_error (run W ops) i = Some G' /\ allow G' = false /\ mlog G' = mlog G ++ newlog /\
+    Forall (entry_ok_in (installed G (ops_for i ops))) newlog /\
     forall n v, stored G n = Some v ->
       stored G' n = Some (replay newlog n v) /\ origs n v newlog.
 Proof.
-  intros W ops i G H Hal.
-  destruct (run_chain (ops_for i ops) G Hal) as (l & [_ L O V]).
+  intros W ops i G H Hal Hne.
+  destruct (run_gchain (installed G (ops_for i ops)) (ops_for i ops) G Hal) as (l & [A _ L O V]);
+    [now left | assumption | intros c Hc; now right |].
   exists (g_run G (ops_for i ops)), l. split; [now apply run_proj | auto].
 Qed.
+
+(* without assignments of on_mutation the callbacks in force are the one the
+   history starts with *)
+Lemma installed_plain : forall G ops,
+  (forall c, ~ In (OSetCb c) ops) -> forall c, installed G ops c -> c = cb G.
+Proof. intros G ops H c [E|I]; [exact E | exfalso; eapply H; eauto]. Qed.
 
 Definition adds_no_new_gene (G : genome) (ops : list gop) : Prop :=
   forall g, In (OAdd g) ops -> stored G (g_name g) <> None.
 
 Lemma nothing_approved_proof : forall W ops i G,
-  nth_error W i = Some G -> allow G = false -> cb_denies (cb G) ->
+  nth_error W i = Some G -> allow G = false -> never_enabled (ops_for i ops) ->
+  (forall c, installed G (ops_for i ops) c -> cb_denies c) ->
   exists G' newlog fresh,
     nth_error (run W ops) i = Some G' /\
     mlog G' = mlog G ++ newlog /\ Forall (fun m => m_approved m = false) newlog /\
@@ -1519,10 +1676,12 @@ Lemma nothing_approved_proof : forall W ops i G,
               exists g, In (OAdd g) (ops_for i ops) /\ nv = (g_name g, g_value g)) fresh /\
     (adds_no_new_gene G (ops_for i ops) -> vals G' = vals G /\ ghash G' = ghash G).
 Proof.
-  intros W ops i G H Hal D.
-  destruct (run_chain (ops_for i ops) G Hal) as (l & [_ L O V]).
-  destruct (deny_run_vals (ops_for i ops) G Hal D) as (fresh & Vf & Ff).
-  pose proof (denied_log _ _ D O) as Un.
+  intros W ops i G H Hal Hne D.
+  destruct (run_gchain (installed G (ops_for i ops)) (ops_for i ops) G Hal) as (l & [_ _ L O V]);
+    [now left | assumption | intros c Hc; now right |].
+  destruct (deny_run_vals (ops_for i ops) G Hal) as (fresh & Vf & Ff);
+    [apply D; now left | assumption | intros c Hc; apply D; now right |].
+  pose proof (denied_log_in _ _ D O) as Un.
   exists (g_run G (ops_for i ops)), l, fresh.
   split; [now apply run_proj|]. split; [assumption|]. split; [assumption|].
   split; [|split; [assumption|split; [assumption|]]].
@@ -1568,7 +1727,7 @@ Lemma log_append_only_proof : forall W ops i G,
   nth_error W i = Some G ->
   exists G' l, nth_error (run W ops) i = Some G' /\ mlog G' = mlog G ++ l.
 Proof.
-  intros W ops i G H. destruct (fr_log _ _ (run_frame (ops_for i ops) G)) as (l & L).
+  intros W ops i G H. destruct (wfr_log _ _ (run_wframe (ops_for i ops) G)) as (l & L).
   exists (g_run G (ops_for i ops)), l. split; [now apply run_proj | assumption].
 Qed.
 
@@ -1589,10 +1748,11 @@ Proof. intros W ops i G H E. rewrite (run_proj ops W i G H), E. reflexivity. Qed
 Lemma step_bool : forall W i G o,
   nth_error W i = Some G ->
   (forall muts inh ds, o <> OReplicate muts inh ds) -> (forall ctx, o <> OExpress ctx) ->
+  is_config o = false ->
   step W (i, o) = (set_nth W i (fst (g_step G o)), RetBool (snd (g_step G o))).
 Proof.
-  intros W i G o H Hr He. unfold step. rewrite H.
-  destruct o; cbn [born]; try (now rewrite app_nil_r).
+  intros W i G o H Hr He Hc. unfold step. rewrite H.
+  destruct o; try discriminate; cbn [born]; try (now rewrite app_nil_r).
   - exfalso. eapply Hr; reflexivity.
   - exfalso. eapply He; reflexivity.
 Qed.
@@ -1613,12 +1773,12 @@ Lemma rollback_world_proof : forall W i G n w W1 v ops,
             nth_error W3 i = Some (add_log G2 (mkM n cur v RRollback false)))).
 Proof.
   intros W i G n w W1 v ops H St Sv.
-  rewrite (step_bool W i G (OMutate n w) H) in St by (intros; discriminate).
+  rewrite (step_bool W i G (OMutate n w) H) in St by (intros; (discriminate || reflexivity)).
   cbn [g_step] in St. inversion St as [[HW Hb]]. clear St.
   destruct (g_mutate G n w RUser) as [G1 b] eqn:E. cbn [fst snd] in *. subst b.
   assert (H1 : nth_error (set_nth W i G1) i = Some G1) by (eapply nth_set_nth_same; eauto).
   pose proof (run_proj ops _ i G1 H1) as H2.
-  destruct (fr_log _ _ (run_frame (ops_for i ops) G1)) as (l2 & L2).
+  destruct (wfr_log _ _ (run_wframe (ops_for i ops) G1)) as (l2 & L2).
   pose proof (mutate_true _ _ _ _ _ E) as (e & Le & _ & EG1).
   destruct (applied_facts G n w RUser e Le) as (_ & _ & Sw & _). rewrite <- EG1 in Sw.
   exists G1, (g_run G1 (ops_for i ops)), l2.
@@ -1627,7 +1787,7 @@ Proof.
   destruct (rollback_restores_proof G n w RUser G1 v (ops_for i ops) l2 E Sv L2 Hno)
     as (cur & Sc & Hyes & Hnot).
   exists cur. split; [assumption|]. intros W3 r St3.
-  rewrite (step_bool _ i _ (ORollback n) H2) in St3 by (intros; discriminate).
+  rewrite (step_bool _ i _ (ORollback n) H2) in St3 by (intros; (discriminate || reflexivity)).
   cbn [g_step] in St3. inversion St3 as [[HW3 Hr]]. split.
   - intros A. destruct (Hyes A) as (G3 & E3 & S3 & _). rewrite E3. cbn [fst snd].
     split; [reflexivity|]. exists G3. split; [|assumption].
@@ -1733,7 +1893,7 @@ Qed.
    authorisation *)
 Definition unauthorised (G : genome) (o : gop) : Prop :=
   match o with
-  | OAdd g => stored G (g_name g) <> None
+  | OAdd g => stored G (g_name g) <> None /\ allow G = false
   | OMutate n v => forall old, stored G n = Some old -> approved_by G n old v RUser = false
   | ORollback n => forall m cur, last_approved (mlog G) n = Some m -> stored G n = Some cur ->
                      approved_by G n cur (m_orig m) RRollback = false
@@ -1761,16 +1921,17 @@ Proof.
 Qed.
 
 Lemma unauthorised_step : forall G o,
-  allow G = false -> unauthorised G o ->
+  unauthorised G o ->
   vals (fst (g_step G o)) = vals G /\
   Forall (fun m => m_approved m = false) (skipn (length (mlog G)) (mlog (fst (g_step G o)))).
 Proof.
-  intros G o Hal U.
+  intros G o U.
   assert (Hnil : forall X : genome, mlog X = mlog G ->
             Forall (fun m => m_approved m = false) (skipn (length (mlog G)) (mlog X))).
   { intros X ->. rewrite skipn_all. constructor. }
   destruct o; cbn [g_step unauthorised] in *.
-  - destruct (add_cases G g) as [(_ & _ & E)|([S|A] & E)]; rewrite E; cbn [fst]; try congruence.
+  - destruct U as (U & Hal).
+    destruct (add_cases G g) as [(_ & _ & E)|([S|A] & E)]; rewrite E; cbn [fst]; try congruence.
     split; [reflexivity | now apply Hnil].
   - destruct (unauthorised_mutate_tbl G n v RUser U) as (T & F). unfold vals. now rewrite T.
   - destruct (rollback_cases G n) as [(_ & E)|(m & Lm & E)]; rewrite E.
@@ -1786,32 +1947,35 @@ Proof.
     destruct (set_level_cases G n Normal) as [(_ & E)|(e & L & E)]; rewrite E; reflexivity.
   - split; [reflexivity | now apply Hnil].
   - split; [reflexivity | now apply Hnil].
+  - split; [reflexivity | now apply Hnil].
+  - split; [reflexivity | now apply Hnil].
+  - split; [reflexivity | now apply Hnil].
 Qed.
 
 Lemma unauthorised_run : forall ops G,
-  allow G = false -> all_unauthorised G ops ->
+  all_unauthorised G ops ->
   vals (g_run G ops) = vals G /\ ghash (g_run G ops) = ghash G /\
   exists l, mlog (g_run G ops) = mlog G ++ l /\ Forall (fun m => m_approved m = false) l.
 Proof.
-  induction ops as [|o ops IH]; intros G Hal U.
+  induction ops as [|o ops IH]; intros G U.
   - repeat split. exists []. split; [now rewrite app_nil_r | constructor].
   - destruct U as (U1 & U2). rewrite g_run_cons.
-    destruct (unauthorised_step G o Hal U1) as (V1 & F1).
-    destruct (step_frame G o) as [(Ma & _) (l1 & L1) _ _].
-    destruct (IH (fst (g_step G o))) as (V2 & _ & l2 & L2 & F2); [congruence | assumption |].
+    destruct (unauthorised_step G o U1) as (V1 & F1).
+    destruct (wfr_log _ _ (step_wframe G o)) as (l1 & L1).
+    destruct (IH (fst (g_step G o))) as (V2 & _ & l2 & L2 & F2); [assumption |].
     rewrite L1, skipn_app, skipn_all, Nat.sub_diag in F1. cbn [skipn app] in F1.
     split; [congruence|]. split; [unfold ghash; congruence|].
     exists (l1 ++ l2). split; [now rewrite L2, L1, app_assoc | now apply Forall_app].
 Qed.
 
 Lemma unauthorised_sequence_proof : forall W ops i G,
-  nth_error W i = Some G -> allow G = false -> all_unauthorised G (ops_for i ops) ->
+  nth_error W i = Some G -> all_unauthorised G (ops_for i ops) ->
   exists G' l,
     nth_error (run W ops) i = Some G' /\ vals G' = vals G /\ ghash G' = ghash G /\
     mlog G' = mlog G ++ l /\ Forall (fun m => m_approved m = false) l.
 Proof.
-  intros W ops i G H Hal U.
-  destruct (unauthorised_run (ops_for i ops) G Hal U) as (V & Hh & l & L & F).
+  intros W ops i G H U.
+  destruct (unauthorised_run (ops_for i ops) G U) as (V & Hh & l & L & F).
   exists (g_run G (ops_for i ops)), l. split; [now apply run_proj | auto].
 Qed.
 
@@ -1870,7 +2034,7 @@ Definition addresses (o : gop) (n : Z) : bool :=
   match o with
   | OAdd g => g_name g =? n
   | OMutate m _ | ORollback m | OSetExpr m _ | OSilence m | OActivate m => m =? n
-  | OReplicate _ _ _ | OExpress _ => false
+  | OReplicate _ _ _ | OExpress _ | OSetAllow _ | OSetCb _ | OSetRate _ => false
   end.
 
 Lemma mutate_lookup_other : forall G m v r n, m <> n ->
@@ -1943,4 +2107,222 @@ Proof.
   - intros o Hin. destruct (addresses o (name_code s)) eqn:A; [|reflexivity].
     exfalso. apply Hne. apply name_code_inj; auto. eapply Ho; eauto.
   - exists G'. repeat split; auto. unfold stored. now rewrite L.
+Qed.
+
+(* ====================================================================== *)
+(* 15. configuration attributes assigned on a live genome: the             *)
+(*     authorisation of a call is the configuration when the call is made  *)
+
+(* the call o, made on a genome in state Gk, is one that changes the value
+   stored under n AND passes the gate as Gk is configured: a re-add while
+   allow_mutations is on, or a mutate / rollback that allow_mutations or the
+   callback installed in Gk authorises for that very change *)
+Definition authorised_change (Gk : genome) (o : gop) (n : Z) : Prop :=
+  match o with
+  | OAdd g => g_name g = n /\ allow Gk = true
+  | OMutate m v => m = n /\ exists old, stored Gk n = Some old /\ approved_by Gk n old v RUser = true
+  | ORollback m => m = n /\ exists mr old, last_approved (mlog Gk) n = Some mr /\ stored Gk n = Some old /\
+                             approved_by Gk n old (m_orig mr) RRollback = true
+  | _ => False
+  end.
+
+Lemma mutate_keeps_or_authorised : forall G m w r n v,
+  stored G n = Some v ->
+  stored (fst (g_mutate G m w r)) n = Some v \/
+  (m = n /\ approved_by G n v w r = true).
+Proof.
+  intros G m w r n v S.
+  destruct (mutate_cases G m w r) as [(S' & E)|[(old & S' & A & E)|(e & L & A & E)]]; rewrite E; cbn [fst]; auto.
+  destruct (Z.eq_dec m n) as [->|Hn].
+  - right. split; [reflexivity|]. apply stored_lookup in S. destruct S as (e' & L' & <-). congruence.
+  - left. destruct (applied_facts G m w r e L) as (_ & _ & _ & So & _). rewrite So by congruence. exact S.
+Qed.
+
+Lemma step_keeps_or_authorised : forall G o n v,
+  stored G n = Some v ->
+  stored (fst (g_step G o)) n = Some v \/ authorised_change G o n.
+Proof.
+  intros G o n v S. destruct o; cbn [g_step authorised_change fst]; auto.
+  - destruct (add_cases G g) as [(_ & _ & E)|([S'|A] & E)]; rewrite E; cbn [fst]; auto.
+    + left. unfold stored in *. cbn [set_tbl tbl]. rewrite lookup_put_other; [exact S|].
+      change (key (mkEntry g (g_default g))) with (g_name g). intros Hk. rewrite Hk in S'.
+      unfold stored in S'. rewrite S' in S. discriminate.
+    + destruct (Z.eq_dec (g_name g) n) as [Hn|Hn]; [right; auto|].
+      left. unfold stored in *. cbn [set_tbl tbl]. rewrite lookup_put_other; [exact S|]. exact Hn.
+  - destruct (mutate_keeps_or_authorised G n0 v0 RUser n v S) as [K|(-> & A)]; [now left|].
+    right. split; [reflexivity|]. eauto.
+  - destruct (rollback_cases G n0) as [(_ & E)|(m & Lm & E)]; rewrite E; [now left|].
+    destruct (mutate_keeps_or_authorised G n0 (m_orig m) RRollback n v S) as [K|(-> & A)]; [now left|].
+    right. split; [reflexivity|]. eauto.
+  - left. destruct (set_level_cases G n0 l) as [(_ & E)|(e & L & E)]; rewrite E; cbn [fst]; [exact S|].
+    now rewrite (relevel_stored G n0 e l n L).
+  - left. destruct (set_level_cases G n0 Silenced) as [(_ & E)|(e & L & E)]; rewrite E; cbn [fst]; [exact S|].
+    now rewrite (relevel_stored G n0 e Silenced n L).
+  - left. destruct (set_level_cases G n0 Normal) as [(_ & E)|(e & L & E)]; rewrite E; cbn [fst]; [exact S|].
+    now rewrite (relevel_stored G n0 e Normal n L).
+Qed.
+
+(* over any history: a stored value that is no longer what it was has been
+   changed by a call that the configuration OF THE MOMENT OF THAT CALL
+   authorised -- whatever the configuration was before (at construction
+   included) and whatever it became afterwards *)
+Lemma run_change_attributed : forall ops G n v,
+  stored G n = Some v ->
+  stored (g_run G ops) n = Some v \/
+  exists pre o post, ops = pre ++ o :: post /\ stored (g_run G pre) n = Some v /\
+                     authorised_change (g_run G pre) o n.
+Proof.
+  induction ops as [|o ops IH]; intros G n v S; [now left|].
+  rewrite g_run_cons.
+  destruct (step_keeps_or_authorised G o n v S) as [K|A].
+  - destruct (IH _ n v K) as [K'|(pre & o' & post & -> & Sp & A)]; [now left|].
+    right. exists (o :: pre), o', post. split; [reflexivity|]. rewrite g_run_cons. auto.
+  - right. exists [], o, ops. auto.
+Qed.
+
+Lemma change_attributed_proof : forall W ops i G n v,
+  nth_error W i = Some G -> stored G n = Some v ->
+  exists G', nth_error (run W ops) i = Some G' /\
+    (stored G' n = Some v \/
+     exists pre o post Gk, ops_for i ops = pre ++ o :: post /\ Gk = g_run G pre /\
+                           stored Gk n = Some v /\ authorised_change Gk o n).
+Proof.
+  intros W ops i G n v H S. exists (g_run G (ops_for i ops)). split; [now apply run_proj|].
+  destruct (run_change_attributed (ops_for i ops) G n v S) as [K|(pre & o & post & E & Sp & A)]; [now left|].
+  right. exists pre, o, post, (g_run G pre). auto.
+Qed.
+
+(* an assignment changes the attribute and nothing else: genes, expression
+   levels, values, hash, log and lineage data of the genome stay, and no other
+   genome of the lineage notices (children keep the configuration they were
+   handed when they were made) *)
+Lemma config_world_proof : forall W i G o W' r,
+  nth_error W i = Some G -> is_config o = true -> step W (i, o) = (W', r) ->
+  r = RetNothing /\ length W' = length W /\
+  (forall j, j <> i -> nth_error W' j = nth_error W j) /\
+  exists G', nth_error W' i = Some G' /\ tbl G' = tbl G /\ vals G' = vals G /\ ghash G' = ghash G /\
+             mlog G' = mlog G /\ generation G' = generation G /\ parent G' = parent G /\
+             allow G' = last_allow [o] (allow G) /\ cb G' = last_cb [o] (cb G) /\
+             mrate G' = last_rate [o] (mrate G).
+Proof.
+  intros W i G o W' r H Hc St.
+  destruct (config_step_facts G o Hc) as (T & L & Ge & Pa & _).
+  pose proof (step_target W i o G H) as Tg. rewrite St in Tg. cbn [fst] in Tg.
+  assert (EW : W' = set_nth W i (fst (g_step G o)) /\ r = RetNothing).
+  { unfold step in St. rewrite H in St. destruct o; try discriminate; cbn [born] in St;
+      rewrite app_nil_r in St; inversion St; auto. }
+  destruct EW as (-> & ->). split; [reflexivity|]. split; [apply set_nth_length|]. split.
+  - intros j Hj. apply nth_set_nth_other. exact Hj.
+  - exists (fst (g_step G o)). split; [exact Tg|].
+    destruct (run_config [o] G) as (A & C & R). cbn [g_run fold_left] in A, C, R.
+    unfold vals, ghash, vals. rewrite T. repeat split; auto.
+Qed.
+
+(* the gate of mutate reads allow_mutations and on_mutation of the genome as
+   it is when mutate is called: G is ANY state (reached through any history
+   of calls and assignments) *)
+Lemma live_gate_proof : forall W i G n v old,
+  nth_error W i = Some G -> stored G n = Some old ->
+  (allow G = false -> cb_approves (cb G) (mkM n old v RUser false) = false ->
+     step W (i, OMutate n v) = (set_nth W i (add_log G (mkM n old v RUser false)), RetBool false)) /\
+  (allow G = true \/ cb_approves (cb G) (mkM n old v RUser false) = true ->
+     exists G', step W (i, OMutate n v) = (set_nth W i G', RetBool true) /\
+                stored G' n = Some v /\ mlog G' = mlog G ++ [mkM n old v RUser true] /\
+                allow G' = allow G /\ cb G' = cb G).
+Proof.
+  intros W i G n v old H S.
+  assert (St : step W (i, OMutate n v) = (set_nth W i (fst (g_mutate G n v RUser)), RetBool (snd (g_mutate G n v RUser)))).
+  { rewrite (step_bool W i G (OMutate n v) H) by (intros; (discriminate || reflexivity)). reflexivity. }
+  rewrite St. pose proof (approved_by_gate G n old v RUser false) as Ga. unfold gate in Ga.
+  destruct (mutate_cases G n v RUser) as [(S' & E)|[(old' & S' & A & E)|(e & L & A & E)]]; [congruence| |].
+  - assert (old' = old) by congruence. subst old'. rewrite E. cbn [fst snd]. split; [reflexivity|].
+    intros Hyes. rewrite A in Ga. symmetry in Ga. apply orb_false_iff in Ga. destruct Ga as (Ga1 & Ga2).
+    destruct Hyes; congruence.
+  - assert (Ev : value e = old).
+    { apply stored_lookup in S. destruct S as (e' & L' & <-). congruence. }
+    rewrite Ev in *. rewrite E. cbn [fst snd]. split.
+    + intros Hal Hcb. rewrite A, Hal, Hcb in Ga. discriminate.
+    + intros _. destruct (applied_facts G n v RUser e L) as ((Ma & Mc & _) & Lg & Sn & _).
+      rewrite Ev in Lg. eexists. split; [reflexivity|]. auto.
+Qed.
+
+Lemma config_last_proof : forall W ops i G,
+  nth_error W i = Some G ->
+  exists G', nth_error (run W ops) i = Some G' /\
+    allow G' = last_allow (ops_for i ops) (allow G) /\
+    cb G' = last_cb (ops_for i ops) (cb G) /\
+    mrate G' = last_rate (ops_for i ops) (mrate G).
+Proof.
+  intros W ops i G H. exists (g_run G (ops_for i ops)). split; [now apply run_proj|]. apply run_config.
+Qed.
+
+(* ====================================================================== *)
+(* 16. long histories: the log keeps every attempt, however many            *)
+
+(* one attempted mutation of an existing gene = exactly one new log entry,
+   approved or not *)
+Lemma mutate_logs_one : forall G n v r old,
+  stored G n = Some old ->
+  exists b, mlog (fst (g_mutate G n v r)) = mlog G ++ [mkM n old v r b] /\ snd (g_mutate G n v r) = b /\
+            stored (fst (g_mutate G n v r)) n <> None.
+Proof.
+  intros G n v r old S.
+  destruct (mutate_cases G n v r) as [(S' & E)|[(old' & S' & A & E)|(e & L & A & E)]]; [congruence| |]; rewrite E.
+  - assert (old' = old) by congruence. subst. exists false. cbn [fst snd add_log mlog]. repeat split. 
+    rewrite add_log_stored. congruence.
+  - assert (Ev : value e = old).
+    { apply stored_lookup in S. destruct S as (e' & L' & <-). congruence. }
+    destruct (applied_facts G n v r e L) as (_ & Lg & Sn & _). rewrite Ev in Lg.
+    exists true. cbn [fst snd]. repeat split; [assumption | congruence].
+Qed.
+
+(* k attempts in a row, refused or not, leave k entries: nothing is ever
+   dropped from the front to make room *)
+Lemma repeated_mutate_log : forall k G n v,
+  stored G n <> None ->
+  exists l, mlog (g_run G (repeat (OMutate n v) k)) = mlog G ++ l /\ length l = k /\
+            Forall (fun m => m_gene m = n /\ m_new m = v /\ m_reason m = RUser) l.
+Proof.
+  induction k as [|k IH]; intros G n v S.
+  - exists []. cbn [repeat g_run fold_left]. split; [now rewrite app_nil_r | split; [reflexivity | constructor]].
+  - cbn [repeat]. rewrite g_run_cons. cbn [g_step].
+    destruct (stored G n) as [old|] eqn:So; [|congruence].
+    destruct (mutate_logs_one G n v RUser old So) as (b & L1 & _ & S1).
+    destruct (IH (fst (g_mutate G n v RUser)) n v S1) as (l & L2 & Len & F).
+    exists (mkM n old v RUser b :: l). split; [|split].
+    + rewrite L2, L1, <- app_assoc. reflexivity.
+    + cbn [length]. now rewrite Len.
+    + constructor; [cbn; auto | assumption].
+Qed.
+
+(* the k-fold repetition of the cases' history language is the k-fold
+   repetition in the history language of the theorems *)
+Lemma rep_compact_world : forall k t W i o,
+  snd (fst (rep_compact t W i o k)) = run W (repeat (i, o) k).
+Proof.
+  induction k as [|k IH]; intros t W i o; [reflexivity|].
+  cbn [rep_compact repeat]. rewrite run_cons.
+  destruct (step W (i, o)) as [W1 r] eqn:St. cbn [fst].
+  destruct (match nth_error W1 i with Some G' => light_row t G' | None => (t, []) end) as [t1 lr].
+  specialize (IH t1 W1 i o). destruct (rep_compact t1 W1 i o k) as [[t2 W2] rows]. exact IH.
+Qed.
+
+Lemma ops_for_repeat : forall i j o k,
+  ops_for i (repeat (j, o) k) = if Nat.eqb j i then repeat o k else [].
+Proof.
+  intros i j o k. unfold ops_for. induction k as [|k IH]; cbn [repeat filter fst].
+  - now destruct (Nat.eqb j i).
+  - destruct (Nat.eqb j i) eqn:E; cbn [map snd]; [now rewrite IH | exact IH].
+Qed.
+
+Lemma long_history_log_proof : forall W i G n v k,
+  nth_error W i = Some G -> stored G n <> None ->
+  exists G' l, nth_error (run W (repeat (i, OMutate n v) k)) i = Some G' /\
+    mlog G' = mlog G ++ l /\ length l = k /\
+    Forall (fun m => m_gene m = n /\ m_new m = v /\ m_reason m = RUser) l.
+Proof.
+  intros W i G n v k H S.
+  destruct (repeated_mutate_log k G n v S) as (l & L & Len & F).
+  exists (g_run G (repeat (OMutate n v) k)), l. split; [|auto].
+  rewrite (run_proj _ W i G H), ops_for_repeat, Nat.eqb_refl. reflexivity.
 Qed.
